@@ -301,6 +301,10 @@ def _composite_hexagonal_aperture(rings, segment_diameter, segment_separation, x
     if segment_angle not in {0, 90}:
         raise ValueError('can only synthesize composite apertures with hexagons along a cartesian axis')
 
+    # np.isin below cannot look inside a set, frozenset or dict view (it wraps
+    # them as a 0-d object array and finds nothing), materialize the ids once
+    exclude = tuple(exclude)
+
     segment_vtov = segment_diameter * FLAT_TO_FLAT_TO_VERTEX_TO_VERTEX
     # segment_separation = segment_separation * FLAT_TO_FLAT_TO_VERTEX_TO_VERTEX
 
